@@ -164,6 +164,7 @@ impl Scenario for WireSim {
             alpn_h2: r.bool(),
             timeout_ms: Some(30_000),
             order: r.below(24) as u8,
+            busy: *Rng::keyed(seed, "wire/busy").weighted(&[(3, 0u8), (1, 1), (1, 3)]),
         };
         let n = r.range(2, 6) as u32;
         let mut reqs: Vec<WireReq> = (0..n).map(|i| draw_req(&mut r, i, tls)).collect();
